@@ -4,6 +4,7 @@
    asking for a rerun —, any pre-handlers, any interrupt sets) and Proofs/Interrupt.v (the
    instance the correspondence check evaluates: Pregel and DAG channels of Model/Graph.v). *)
 From Eino Require Import Base.Util Model.Graph Model.RunLoop Model.Interrupt Model.IntrObs
+     Proofs.RunLoopSusp Proofs.InterruptNested
      Proofs.RunLoop Proofs.RunLoopRerun Proofs.Interrupt Proofs.InterruptRerun Proofs.InterruptWitness.
 From Coq Require Import Permutation.
 Open Scope N_scope.
@@ -242,6 +243,101 @@ Example rerun_equiv_flat_pregel_hypotheses_hold :
      List.length (filter (fun ev => ev_abort ev) (all_logs cos)) = 3%nat).
 Proof. exact (conj w_rerun_ok (conj w_rerun_uninterrupted w_rerun_completes)). Qed.
 
+(* ---------------------------------------------------------------------------------------------
+   Interrupts raised INSIDE nested graphs. Generic statement (Proofs/RunLoopSusp.v): a graph in batch mode
+   whose node bodies follow a protocol relative to the uninterrupted bodies [body] (partial: None = the
+   body fails) — started on v a body completes with [body k v], or, if [rerunnable], aborts the attempt
+   (InterruptAndRerun), or SUSPENDS with a residual c (a nested graph that was interrupted inside:
+   subGraphInterruptError carrying the nested checkpoint); continued from c, whatever placeholder input it
+   is handed, it completes with [body k v] or suspends again; what it emits over all its segments ([tr]:
+   the executions inside it) is, when it completes, the trace [trU k v] of the uninterrupted body. Asked of
+   the channel layer ([chan_layer], relative to a joint invariant of the channel table and the tasks
+   handed out): folding completed tasks is compositional and order-independent; of the state handlers
+   ([state_layer]): the pre-handler of a rerunnable node rebuilds its input. Then, for ANY interrupt sets,
+   ANY pattern of suspensions and aborted attempts and ANY number of calls: whenever the run driven
+   through the store completes, it completes with the output of the uninterrupted run, its completed first
+   attempts are — as a multiset of (node, input) — the executions of the uninterrupted run, and everything
+   its bodies emitted is — as a multiset — what the bodies of the uninterrupted run emit. The same theorem
+   is proved for a single run segment ([seg_fresh_ok] / [seg_resumed_ok]): a graph whose bodies follow the
+   protocol follows the protocol itself, which is what carries the induction over the nesting depth. *)
+Section GenericSusp.
+  Context {V CS GS ENV SCP SINFO X : Type}.
+  Variable zero : V.
+  Variable fold : CS -> list (N * V) -> res CS.
+  Variable getr : CS -> res (CS * list (N * V)).
+  Variable pre : N -> V -> GS -> V * GS.
+  Variable body : N -> V -> option V.
+  Variable rerunnable : N -> Prop.
+  Variable execR : N -> option SCP -> V -> ENV -> @texec V SCP SINFO * ENV.
+  Variable before after : list N.
+  Variable tr : ENV -> list X.
+  Variable trU : N -> V -> list X.
+  Variable EOK : ENV -> Prop.
+  Variable Susp : N -> V -> SCP -> list X -> Prop.
+  Hypothesis H_proto : body_protocol body rerunnable execR tr trU EOK Susp.
+  Variable J : CS -> list N -> Prop.
+  Hypothesis H_chan : chan_layer fold getr J.
+  Variable GOK : GS -> Prop.
+  Hypothesis H_state : state_layer (SCP := SCP) zero pre rerunnable GOK.
+
+  Theorem susp_equiv : forall {B : Type} (ser : @checkpoint V CS GS SCP -> B) deser,
+    (forall c, deser (ser c) = Some c) ->
+    forall tick : nat -> ENV -> ENV, (forall k e, EOK e -> EOK (tick k e) /\ tr (tick k e) = tr e) ->
+    forall fuelR cs0 gs0 x fuelU vU lU n env cos env' cos' co,
+      J cs0 [kStart] -> GOK gs0 -> EOK env ->
+      start zero fold getr pre (RunLoopSusp.execU (SCP := SCP) (SINFO := SINFO) body) [] [] fuelU cs0 gs0 x tt = (ODone vU, lU, tt) ->
+      (fuelU <= fuelR)%nat ->
+      drive ser deser (start zero fold getr pre execR before after fuelR cs0 gs0 x)
+            (resume zero fold getr pre execR before after fuelR)
+            tick true n 0 (fun _ g => g) None env = (cos, env') ->
+      cos = cos' ++ [co] ->
+      RunLoopSusp.is_interrupt (co_out co) \/
+      (co_out co = ODone vU /\ Permutation (RunLoopSusp.good (RunLoopSusp.all_logs cos)) lU /\
+       exists Lnew, tr env' = tr env ++ Lnew /\ Permutation Lnew (TU trU lU)).
+  Proof.
+    intros B ser deser Hser tick Htick fuelR cs0 gs0 x fuelU vU lU n env cos env' cos' co Hj Hg He HU Hle Hd Hcos.
+    exact (susp_equiv_l zero fold getr pre body rerunnable execR before after tr trU EOK Susp H_proto J H_chan GOK H_state
+             fuelR vU lU cs0 gs0 x Hj Hg fuelU HU Hle ser deser Hser tick Htick n env cos env' cos' co He Hd Hcos).
+  Qed.
+End GenericSusp.
+
+(* resume_equiv_nested, for the model the correspondence evaluates: a forest F of Graphs in any-predecessor
+   mode — nested to any depth, interrupt-before/after sets and rerun tables at EVERY level (every node with
+   a rerun table has the stamping/rebuilding pre-handler: [rerun_ok'], the property's proviso), input keys,
+   state handlers — driven by [run_drive] through the store (calls without state modifier), against the
+   reference run of the same forest without any interrupt configuration ([map strip F], one call: what
+   [ref_ok] of the correspondence evaluates). Whenever the driven run completes, it completes with the
+   output of the reference run; its top-level executions are those of the reference run; and the lambda
+   executions of ALL nesting levels (node, input) are, as a multiset, those of the reference run: nothing
+   completed before an interrupt — raised inside a nested graph or not — is executed again or lost, a
+   continued nested graph does not start over, an aborted attempt is re-run on the rebuilt input. *)
+Theorem resume_equiv_nested : forall F, Forall pregel_graph F ->
+  forall x eU0 coU eU' vU e cos e' cos' co,
+    EOKe eU0 -> EOKe e ->
+    run_drive (map strip F) false [] x eU0 = ([coU], eU') -> co_out coU = ODone vU ->
+    run_drive F true [] x e = (cos, e') -> cos = cos' ++ [co] ->
+    RunLoopSusp.is_interrupt (co_out co) \/
+    (co_out co = ODone vU /\
+     Permutation (RunLoopSusp.good (RunLoopSusp.all_logs cos)) (co_log coU) /\
+     exists LU LI, trE eU' = trE eU0 ++ LU /\ trE e' = trE e ++ LI /\ Permutation LI LU).
+Proof. exact nested_equiv_pregel_l. Qed.
+
+(* non-vacuity: START -> 2 (nested graph) -> 3 -> END, the nested graph START -> 4 -> 5 -> END has
+   interrupt-after 4, node 3 aborts its first attempt: the hypotheses hold, the reference run completes
+   (three lambda executions), the driven run takes three calls — the nested graph interrupts inside
+   (nested info under node 2), node 3 asks for a rerun, the third call completes — with three completed
+   lambda executions *)
+Example resume_equiv_nested_hypotheses_hold :
+  Forall pregel_graph wn_F /\
+  (exists coU eU v, run_drive (map strip wn_F) false [] wn_x (env0 []) = ([coU], eU) /\ co_out coU = ODone v /\
+                    List.length (trE eU) = 3%nat) /\
+  (exists co1 co2 co3 e i1 c1 v,
+     run_drive wn_F true [] wn_x (env0 []) = ([co1; co2; co3], e) /\
+     co_out co1 = OInterrupted i1 c1 /\ map fst (ii_subs i1) = [2] /\
+     (exists i2 c2, co_out co2 = OInterrupted i2 c2 /\ ii_rerun i2 = [3]) /\
+     co_out co3 = ODone v /\ List.length (trE e) = 3%nat).
+Proof. exact (conj wn_pregel (conj wn_reference wn_interrupted)). Qed.
+
 Print Assumptions loop_split_resume.
 Print Assumptions loop_split_interrupt.
 Print Assumptions resume_equiv.
@@ -254,3 +350,6 @@ Print Assumptions resume_equiv_eager_v0_refuted.
 Print Assumptions rerun_equiv.
 Print Assumptions rerun_equiv_flat_pregel.
 Print Assumptions rerun_equiv_flat_pregel_hypotheses_hold.
+Print Assumptions susp_equiv.
+Print Assumptions resume_equiv_nested.
+Print Assumptions resume_equiv_nested_hypotheses_hold.
